@@ -269,6 +269,7 @@ pub fn gen_enum(s: &mut Src, name: &str, bits: u32, plain: bool) -> EnumDecl {
             exhaustive: Exh::True,
             colon: s.chance(1, 5),
             qualified: false,
+            args_swapped: false,
         };
     }
     // non-exhaustive: random distinct discriminants, always trying 0, max and neighbours
@@ -318,7 +319,7 @@ pub fn gen_enum(s: &mut Src, name: &str, bits: u32, plain: bool) -> EnumDecl {
     } else {
         Exh::False
     };
-    EnumDecl { name: name.to_string(), bits, variants, exhaustive, colon: s.chance(1, 5), qualified: false }
+    EnumDecl { name: name.to_string(), bits, variants, exhaustive, colon: s.chance(1, 5), qualified: false, args_swapped: s.chance(1, 4) }
 }
 
 pub fn unsigned_ty(s: &mut Src, w: u32) -> FieldTy {
